@@ -395,6 +395,31 @@ def run(chk: Check, replay=None):
             records += o["recs"]
             nodd += len(o["recs"])
     chk.extra["odd_geometry_records"] = nodd
+    # ---- (5) an op cut in two by the flat window whose flip word was rewritten at run time ---------------------
+    # (the window keeps the live copy of words below the limit; whatever lane executes the straddling op must read that copy)
+    dcases, dengs = [], []
+    for L in ([3, 5, 7, 9, 13] if quick else [3, 5, 7, 9, 11, 13, 17, 33, 16385]):
+        for w_ in (32, 64) if L < 100 else (64,):
+            for b in (1, 2):
+                n = L + 7
+                tgt, data_w, halt = (L - 1), L + 3, L + 5          # the cut op at words L-1 | L, a data word, a halting op
+                f0 = data_w * w_                                    # load-time flip word: bit 0 of the data word
+                dcases.append({"w": w_, "segs": [[0, n + (n % 2)]], "inp": [], "version": (L + b) % 4,
+                               "data": {0: tgt * w_ + b, 1: tgt * w_,                    # op 0 flips bit b of the cut op's flip word, jumps to it
+                                        tgt: f0, tgt + 1: halt * w_,                   # the cut op: (now) flips bit 2^b of the data word
+                                        halt: (data_w + 1) * w_, halt + 1: halt * w_}})
+                dengs.append(["fast", "native-flat", "native-flat-ring", "native-paged-ring", f"native-hybrid:{L}", f"native-hybrid:{L}:ring",
+                              f"native-hybrid:{L - 1}:ring", f"native-hybrid:{L + 1}:ring"])
+    outs = par.pmap(c01._run_case, [(i, c, dengs[i], 60) for i, c in enumerate(dcases)], so_path=so, procs=16)
+    ncut = 0
+    for o in outs:
+        if "skipped" in o:
+            k = "cut:" + o["skipped"].split(":")[0]
+            skipped[k] = skipped.get(k, 0) + 1
+        else:
+            records += o["recs"]
+            ncut += len(o["recs"])
+    chk.extra["window_cut_records"] = ncut
     chk.extra["scenarios"] = len(scen)
     chk.extra["generated_cases"] = ncases
     chk.extra["skipped"] = skipped
